@@ -1,6 +1,7 @@
 package world
 
 import (
+	"os"
 	"context"
 	"fmt"
 	"net"
@@ -66,6 +67,7 @@ type Result struct {
 	LogTail   []string
 	GwErr     string
 	TX        *TXResult
+	Trace     []string
 }
 
 func (s *Sim) fault(kind string) {
@@ -181,6 +183,7 @@ func (s *Sim) run(res *Result) {
 	cfg := &plan.Cfg
 	w := simrt.NewWorld(plan.Seed, cfg.Sched)
 	s.W = w
+	w.TraceOn = os.Getenv("VERIF_HIST") == "1"
 	defer w.Close()
 	w.Net.ErrClosedListener = udp.ErrClosedListener
 	simrt.SetMaxTopicAlias(cfg.MaxTopicAlias)
@@ -294,6 +297,7 @@ func (s *Sim) finish(res *Result) {
 	res.SitesHit = len(w.SitesHit)
 	res.Switches = len(w.Switches)
 	res.SimNs = int64(w.Now())
+	res.Trace = w.Trace
 	s.fmu.Lock()
 	tail := s.logRing
 	if len(tail) > 120 {
